@@ -77,7 +77,7 @@ def gen_tree(rng, depth, names, allow_call=True, logical=False):
             n = rng.choice(names)
             return ('reg', n) if n in progs.NUMERIC_REGS else ('var', n)
         if allow_call and k < 0.95:
-            f = rng.choice(['dbl', 'round', 'floor', 'add3'])
+            f = rng.choice(['dbl', 'round', 'floor', 'add3', 'pick'])
             if f == 'add3':
                 return ('call', f, [('expr', gen_tree(rng, depth - 1, names, False)),
                                     ('num', rng.choice([1, 2])), ('expr', gen_tree(rng, 0, names, False))])
@@ -103,12 +103,30 @@ PRELUDE_AST = [
     ('define', 'dbl', ['x'], [('return', ('expr', ('bin', '*', ('var', 'x'), ('num', 2))))]),
     ('define', 'add3', ['a', 'b', 'c'],
      [('return', ('expr', ('bin', '+', ('bin', '+', ('var', 'a'), ('var', 'b')), ('var', 'c'))))]),
+    # a routine that returns from the inner one of two nested list loops (which keep their
+    # remaining items on the evaluation stack): the c-th pass, counted over both loops, is the
+    # first with c >= t; 6 passes in all
+    ('define', 'pick', ['t'],
+     [('assign', 'c', ('num', 0)),
+      ('repeat', ('in', [('light', ('str', 'p')), ('light', ('str', 'q')), ('light', ('str', 'r'))], 'u', None),
+       [('repeat', ('in', [('light', ('str', 's')), ('light', ('str', 'w'))], 'v', None),
+         [('assign', 'c', ('expr', ('bin', '+', ('var', 'c'), ('num', 1)))),
+          ('if', ('expr', ('bin', '>=', ('var', 'c'), ('var', 't'))),
+           [('return', ('expr', ('bin', '*', ('var', 'c'), ('num', 100))))], None)])]),
+      ('return', ('num', 0))]),
     ('define_macro', 'M', ('num', 12)),
     ('assign', 'x', ('num', 3)), ('assign', 'y', ('num', -4.5)), ('assign', 'z', ('num', 0)),
     ('setreg', 'hue', ('num', 120)), ('setreg', 'brightness', ('num', 40.5)),
 ]
 ENV0 = {'x': 3, 'y': -4.5, 'z': 0, 'M': 12, 'hue': 120, 'brightness': 40.5}
-ROUTINES = {'dbl': lambda x: x * 2, 'add3': lambda a, b, c: a + b + c}
+def _pick(t):
+    if isinstance(t, bool) or not isinstance(t, (int, float)):
+        raise Undefined()
+    c = max(1, math.ceil(t))
+    return c * 100 if c <= 6 else 0
+
+
+ROUTINES = {'dbl': lambda x: x * 2, 'add3': lambda a, b, c: a + b + c, 'pick': _pick}
 NAMES = ['x', 'y', 'z', 'hue', 'brightness']
 
 
